@@ -111,6 +111,12 @@ CHECKS = {
         'the reconciliation arithmetic of _init_size when n_int is given (C06_n_int_with_n_frac / _with_n_word). PARTIAL: minimality of the inferred fraction length (the binary-expansion loop, also modelled with fuel) and exactness of the stored values are not theorems yet. '
         'The correspondence run checks exactness, minimal n_frac, minimal n_word, the only-n_word / only-n_frac / n_int rules against exact rationals for dyadic inputs k/2^f (f<=20, |k|<2^40) in every subset of given sizes and signedness, the capped non-dyadic case, and compares the model Sizes.init_size on every case.',
    design='7/C06', technique='Coq proof (loop invariant of the integer-bit search) + differential correspondence'),
+
+ 'C15': dict(
+   text='Proof: sum over any number of elements (all elements or one slice along an axis; x.size drives the growth) returns the exact sum with no flag (C15_sum_exact: growth rule, int64 accumulation, Fxp(val, raw=True)); the accumulating reductions never overflow their optimal format even with every element at an extreme - '
+        'bound lemmas for ANY length: C15_sum_no_overflow (count*2^(n-1) <= 2^(n-1+ceil(log2 count))) and C15_dot_no_overflow (via the product bound of C07); C15_accumulation_exact. PARTIAL: prod / cumprod / cumsum / trace / model-level dot are modelled (Reduce.v) but not theorems; '
+        'max / min / sort / clip / transpose / diagonal only select or rearrange codes. Tie: shapes to 3x3 / length 8, formats to 12 bits, extremes and random codes, both call routes, every axis; values, shape, growth rule, flags, type; model comparison for 1-D sum / cumsum / prod / dot. The dispatch glue itself has no model.',
+   design='7/C15', technique='Coq proof (sum exactness, no-overflow bounds for any length) + differential correspondence'),
 }
 NA_REASON = 'check not built yet (work in progress; see DESIGN.md section 10 order of work)'
 def main():
